@@ -350,3 +350,143 @@ func clip(s string) string {
 	}
 	return s
 }
+
+// ---------------------------------------------------------------------------------------------
+// many writers alive at once: k writers with k distinct prefixes (and, in a variant, all with the
+// same one), each over a sink of its own, written to in turn - before, between and after the
+// creation of the later ones. Every sink must hold its own rendering.
+
+type WritersInput struct {
+	K      int  `json:"writers"`
+	Same   bool `json:"same_prefix"`
+	Late   bool `json:"create_between_writes"`
+	PfxLen int  `json:"prefix_length"`
+	Rounds int  `json:"rounds"`
+}
+
+func checkWriters(in WritersInput) (ok bool, v verdict) {
+	fail := func(fp, exp, obs string) (bool, verdict) {
+		v.fingerprint, v.expected, v.observed = "writers:"+fp, exp, obs
+		return false, v
+	}
+	var res *verdict
+	pan, pt := core.Guard(func() {
+		prefix := func(i int) string {
+			if in.Same {
+				i = 0
+			}
+			p := make([]byte, in.PfxLen)
+			for j := range p {
+				p[j] = byte('a' + (i+j)%26)
+			}
+			p[len(p)-1] = '>'
+			return string(p) + fmt.Sprint(i)
+		}
+		sinks := make([]*lim, in.K)
+		ws := make([]io.Writer, in.K)
+		texts := make([]string, in.K)
+		chunks := []string{"one\n", "tw", "o\nthree", "\n", "four\n\nfive"}
+		write := func(i, r int) bool {
+			c := chunks[(i+r)%len(chunks)]
+			v.writes++
+			if m, err := ws[i].Write([]byte(c)); err != nil || m != len(c) {
+				_, x := fail("success-count", fmt.Sprint(len(c)), fmt.Sprint(m, err))
+				res = &x
+				return false
+			}
+			texts[i] += c
+			return true
+		}
+		for i := 0; i < in.K; i++ {
+			sinks[i] = &lim{nofail: true}
+			ws[i] = indent.NewWriter(sinks[i], prefix(i))
+			if in.Late {
+				for j := 0; j <= i; j++ {
+					if !write(j, i) {
+						return
+					}
+				}
+			}
+		}
+		for r := 0; r < in.Rounds; r++ {
+			for i := 0; i < in.K; i++ {
+				if !write(i, r) {
+					return
+				}
+			}
+		}
+		for i := 0; i < in.K; i++ {
+			want, _ := ref(prefix(i), texts[i])
+			if string(sinks[i].got) != string(want) {
+				_, x := fail("output-differs", fmt.Sprintf("writer %d of %d: %q", i, in.K, clip(string(want))), fmt.Sprintf("%q", clip(string(sinks[i].got))))
+				res = &x
+				return
+			}
+		}
+	})
+	if pan {
+		return fail("panic", "no panic", pt)
+	}
+	if res != nil {
+		return false, *res
+	}
+	return true, v
+}
+
+// writersCases lists the cases in execution order (the package under test may keep state between
+// writers, so a replay runs the sequence up to the recorded case).
+func writersCases() []WritersInput {
+	var out []WritersInput
+	for k := 1; k <= 40; k++ {
+		for _, same := range []bool{false, true} {
+			for _, late := range []bool{false, true} {
+				for _, pl := range []int{1, 2, 7, 8, 9, 16, 17, 33} {
+					out = append(out, WritersInput{K: k, Same: same, Late: late, PfxLen: pl, Rounds: 3})
+				}
+			}
+		}
+	}
+	return out
+}
+
+func replayWriters(rec WritersInput) (bool, verdict) {
+	for _, in := range writersCases() {
+		if ok, v := checkWriters(in); !ok {
+			return false, v
+		}
+		if in == rec {
+			break
+		}
+	}
+	return true, verdict{}
+}
+
+func runWriters(c *core.Ctx) {
+	for _, in := range writersCases() {
+		{
+			{
+				{
+					if c.Expired() {
+						return
+					}
+					caseNo, run := c.Begin()
+					if c.Skip(caseNo, run, Input{Writers: &in}) {
+						continue
+					}
+					ok, v := checkWriters(in)
+					c.Exec()
+					c.Validate()
+					c.Edge(int64(v.writes))
+					c.StateN(1)
+					c.NontrivialN(1)
+					if ok {
+						c.Outcome("writers-independent")
+					} else {
+						c.Outcome("FAIL:" + v.fingerprint)
+						c.Fail(caseNo, nil, v.fingerprint, Input{Writers: &in}, v.expected, v.observed)
+					}
+				}
+			}
+		}
+	}
+}
